@@ -62,10 +62,27 @@ func callSeqShapes(src string) []csFunc {
 	return out
 }
 
+// the position a restarted decoder expects differs per format (a field or a constant)
+var reRestartPos = regexp.MustCompile(`if \(?[\w. ]+?\)? <> args\.src\.position\(\) \{ return base\."#bad restart" \}`)
+
 func norm(ls []string) string {
 	s := strings.Join(ls, " ")
 	s = strings.ReplaceAll(s, "this.call_sequence", "cs")
-	return strings.TrimSpace(reSpaces.ReplaceAllString(s, " "))
+	s = strings.TrimSpace(reSpaces.ReplaceAllString(s, " "))
+	return reRestartPos.ReplaceAllString(s, `if POS <> args.src.position() { return base."#bad restart" }`)
+}
+
+// csClass: which expected text of Model/CallSeq.lean a function of an image decoder is compared with.
+func csClass(codec, fn string) string {
+	switch codec {
+	case "gif", "png", "nie":
+		return codec
+	case "bmp":
+		if fn == "do_decode_image_config" {
+			return "bmp"
+		}
+	}
+	return "still"
 }
 
 // csItems walks statement lines; `body` excludes the function's own head and is
@@ -89,7 +106,7 @@ func csItems(body []string) []string {
 				if k == i || (depth == 1 && strings.HasPrefix(lk, "} else")) {
 					inHeader = true
 				}
-				if inHeader && strings.Contains(lk, "call_sequence") {
+				if inHeader && strings.Contains(lk, "this.call_sequence") {
 					mentions = true
 				}
 				depth += braceDelta(lk)
@@ -110,7 +127,7 @@ func csItems(body []string) []string {
 			// the same loop because their `if` lines come up as `l` later)
 			continue
 		}
-		if strings.Contains(l, "call_sequence") && !strings.HasPrefix(l, "} else") {
+		if strings.Contains(l, "this.call_sequence") && !strings.HasPrefix(l, "} else") {
 			// a plain statement (possibly over several lines up to the next line that balances parentheses)
 			k := i
 			par := strings.Count(l, "(") - strings.Count(l, ")")
